@@ -791,7 +791,7 @@ func (s *suGen) subPath() string {
 	l := g.leaves[r.Intn(len(g.leaves))]
 	q := elemsToElement(l.elems)
 	s.lastLeaf = append([]string(nil), q...)
-	switch r.Intn(7) {
+	switch r.Intn(8) {
 	case 0:
 		q = q[:r.Intn(len(q)+1)]
 	case 1:
@@ -804,6 +804,15 @@ func (s *suGen) subPath() string {
 		q = nil
 	case 4:
 		q = append(q, "zz")
+	case 5:
+		// inside an atomic container (the generator's atomic notifications have prefix <leaf>/at and a
+		// few of genNames below it): a subscriber for one member is offered the container only when
+		// that member is among the notification's updates
+		g.atLeaves = append(g.atLeaves, l)
+		q = append(q, "at", genNames[r.Intn(4)])
+		if r.Intn(3) == 0 {
+			q = append(q, "x")
+		}
 	}
 	origin := ""
 	return "0:" + encStr(origin) + ":" + encPath(q)
